@@ -393,7 +393,7 @@ pub fn replay(lines: &[String], out: &mut Out) {
                 with_width!(w, irrun_case, w, &code, &env, budget, out);
             }
             "bcrun" => out.case(line, &exec_bcrun(&t)),
-            "jitrun" | "jitsem" => out.case(line, &exec_jitrun(&t)),
+            "jitrun" | "jitsem" | "x86prog" => out.case(line, &exec_jitrun(&t)),
             "limchk" => {
                 out.mark(line);
                 let r = exec_limchk(&t);
@@ -1856,7 +1856,7 @@ fn gen_anal<C: CellType>(r: &mut Rng, insts: &[ir::Instr<C>], vlo: i64, vhi: i64
     }
 }
 
-fn optdse_reachable<C: CellType>(w: u32, code: &str, out: &mut Out) {
+fn optdse_reachable<C: CellType>(w: u32, code: &str, env: &EnvSpec, out: &mut Out) {
     if let Ok(p) = ir::Program::<C>::parse(code) {
         for &lvl in &[2u32, 3] {
             for (before, anal, after) in p.verif_dse_steps(lvl) {
@@ -1868,6 +1868,11 @@ fn optdse_reachable<C: CellType>(w: u32, code: &str, out: &mut Out) {
                 if before != after {
                     out.stat("reachable_changed");
                 }
+                // the hypotheses of the preservation theorem, tested on the run of `before`
+                out.case(
+                    &format!("dsefacts {w} 400 {} {} {}", env.encode(), encode_anal(&anal), encode_block(&before)),
+                    "facts-ok",
+                );
             }
         }
     }
@@ -1915,10 +1920,97 @@ pub fn optdse(r: &mut Rng, count: usize, out: &mut Out) {
         let w = *r.pick(&WIDTHS);
         if i % 3 == 0 {
             let code = if i % 2 == 0 { gen::structured(r) } else { random_program(r, out) };
-            with_width!(w, optdse_reachable, w, &code, out);
+            let env = random_env(r);
+            with_width!(w, optdse_reachable, w, &code, &env, out);
         } else {
             with_width!(w, optdse_random, w, r, out);
         }
     }
     std::panic::set_hook(prev);
+}
+
+// --------------------------------------------------------------------------------------- oncechk
+
+fn count_once<C: CellType>(insts: &[ir::Instr<C>]) -> usize {
+    insts
+        .iter()
+        .map(|i| match i {
+            ir::Instr::Loop { block, once, .. } => (*once as usize) + count_once(&block.insts),
+            ir::Instr::If { block, .. } => count_once(&block.insts),
+            _ => 0,
+        })
+        .sum()
+}
+
+fn oncechk_case<C: CellType>(w: u32, code: &str, env: &EnvSpec, out: &mut Out) {
+    if let Ok(p) = ir::Program::<C>::parse(code) {
+        for &lvl in &[1u32, 2, 3] {
+            let o = p.optimize(lvl);
+            let n = count_once(&o.insts);
+            if n == 0 {
+                out.stat("no_once_loop");
+                continue;
+            }
+            out.stat("has_once_loop");
+            out.case(&format!("oncechk {w} 4000 {} {}", env.encode(), encode_block(&o)), "onceok");
+        }
+    }
+}
+
+/// The hypothesis `OnceOk` of the emission theorems (C02) on optimizer output: on the Lean run of the
+/// optimized IR, every loop the optimizer marked `once` is entered with a non-zero condition.
+pub fn oncechk(r: &mut Rng, count: usize, out: &mut Out) {
+    for i in 0..count {
+        let code = if i % 2 == 0 { gen::structured(r) } else { random_program(r, out) };
+        let env = random_env(r);
+        let w = *r.pick(&WIDTHS);
+        with_width!(w, oncechk_case, w, &code, &env, out);
+    }
+}
+
+// --------------------------------------------------------------------------------------- x86prog
+
+fn x86prog_case<C: CellType>(w: u32, code: &str, env: &EnvSpec, r: &mut Rng, out: &mut Out) {
+    let inplace = InplaceInterpreter::<C>::create(code, 0).unwrap();
+    let mut genv = env.clone();
+    if genv.out_ok.is_none() {
+        genv.out_ok = Some(3000);
+    }
+    if genv.input.is_none() {
+        genv.input = Some(vec![]);
+    }
+    let g = run_exec::<C>(&inplace, &genv, &Mode::Limited(600));
+    if g.tag != "ok" {
+        out.stat("gate_skipped");
+        return;
+    }
+    for &lvl in &[0u32, 1, 2, 3] {
+        let ir = ir::Program::<C>::parse(code).unwrap().optimize(lvl);
+        let bc = hpbf::bc::CodeGen::translate(&ir, 11, false);
+        // unlimited, and limited with a budget that may or may not suffice
+        let budgets: [(u32, usize); 3] = [(0, 0), (1, *r.pick(&[1usize, 2, 3, 5, 9, 30])), (1, 100000)];
+        for (lim, bud) in budgets {
+            let req = format!("x86prog {w} {lim} {bud} 400000 {} 0 {}", genv.encode(), encode_bc(&bc));
+            out.mark(&req);
+            let t: Vec<&str> = req.split_whitespace().collect();
+            let imp = exec_jitrun(&t);
+            out.stat(&format!("lim{lim}_{}", imp.split(' ').next().unwrap_or("?")));
+            out.case(&req, &imp);
+        }
+        if bc.temps > 11 {
+            out.stat("with_stack_temps");
+        }
+    }
+}
+
+/// The machine code of whole programs on this CPU (events, remaining budget) vs. the program-level x86
+/// machine `X86Prog` running `JitGen.compileX86` of the same bytecode: the semantics the whole-program
+/// simulation theorem (`C03.prog_run`) is about.
+pub fn x86prog(r: &mut Rng, count: usize, out: &mut Out) {
+    for i in 0..count {
+        let code = if i % 3 == 0 { wide_program(r) } else { random_program(r, out) };
+        let env = random_env(r);
+        let w = *r.pick(&WIDTHS);
+        with_width!(w, x86prog_case, w, &code, &env, r, out);
+    }
 }
